@@ -47,7 +47,10 @@ class Profile:
     p_any_undeclared = 0.15
     p_dict_undeclared = 0.08
     wrap = 0.0              # probability to mark a node for custom wrapping (C16)
+    spine = False           # set by _shaped: containers only until the last two levels
+    wide = False            # set by _shaped: containers take max_fan members
     repr_safe = False       # C06: only what repr can print as an expression
+    p_shape = float(__import__("os").environ.get("RV_P_SHAPE", "0.04"))          # root calls without an explicit depth: probability of a deep spine / a wide node
 
     def __init__(self, **kw):
         for k, v in kw.items():
@@ -275,9 +278,38 @@ def gen_keys(rng, prof, n):
     return list(keys)
 
 
+DEEP_KINDS = {"list": 12, "dict": 12, "any": 5, "alias": 3, "int": 4, "str": 4, "float": 2, "none": 1, "bool": 1}
+
+
+def _shaped(rng, prof):
+    """Deep spines (depth max_depth+1 .. max_depth+4, fan <= 2) and wide nodes (fan 6..12, depth <= 2): the shapes
+    the ordinary profile never reaches.  The decision peeks at the stream and restores it, so every case that is
+    not shaped is exactly the case it was before this mode existed."""
+    st = rng.getstate()
+    x = rng.random()
+    if x >= prof.p_shape:
+        rng.setstate(st)
+        return None
+    import copy
+    sp = copy.copy(prof)
+    sp.p_shape = 0.0
+    if x < prof.p_shape / 2:
+        sp.max_fan = 2
+        sp.spine = True
+        sp.kinds = {k: w for k, w in DEEP_KINDS.items() if k in prof.kinds}
+        return sp, rng.randint(prof.max_depth + 1, prof.max_depth + 4)
+    sp.max_fan = rng.randint(6, 12)
+    sp.wide = True
+    return sp, rng.randint(1, 2)
+
+
 def gen_spec(rng, prof, depth=None, uniq=None):
     if depth is None:
-        depth = rng.randint(0, prof.max_depth)
+        shaped = _shaped(rng, prof) if prof.p_shape else None
+        if shaped is not None:
+            prof, depth = shaped
+        else:
+            depth = rng.randint(0, prof.max_depth)
     if uniq is None:
         counter = [0]
 
@@ -285,6 +317,8 @@ def gen_spec(rng, prof, depth=None, uniq=None):
             counter[0] += 1
             return counter[0]
     weights = dict(prof.kinds)
+    if prof.spine and depth >= 2:
+        weights = {k: w for k, w in weights.items() if k not in prof.leaf_kinds} or weights
     if depth <= 0:
         weights = {k: w for k, w in weights.items() if k in prof.leaf_kinds}
     k = _wchoice(rng, weights)
@@ -327,7 +361,7 @@ def gen_list(rng, prof, depth, uniq):
                     max(x, 3) for x in s["len"][2:])
         return s
     s["form"] = "elems"
-    n = rng.choice((0, 1, 1, 2, 2, 3, prof.max_fan))
+    n = prof.max_fan if prof.wide and rng.random() < 0.7 else rng.choice((0, 1, 1, 2, 2, 3, prof.max_fan))
     els = [gen_spec(rng, prof, depth - 1, uniq) for _ in range(n)]
     e = rng.random()
     if e < 0.4:
@@ -359,7 +393,7 @@ def gen_dict(rng, prof, depth, uniq):
     if rng.random() < prof.p_dict_undeclared:
         s["keys"] = None
         return s
-    n = rng.choice((0, 1, 2, 2, 3, 3, prof.max_fan))
+    n = prof.max_fan if prof.wide and rng.random() < 0.7 else rng.choice((0, 1, 2, 2, 3, 3, prof.max_fan))
     keys = gen_keys(rng, prof, n)
     entries = []
     for key in keys:
